@@ -81,22 +81,76 @@ def coq_list(xs):
     return "[" + "; ".join(xs) + "]"
 
 
+DEFAULTS = {
+    'graphic_tags': 'list tag := [T_Circle; T_Ellipse; T_Image; T_Line; T_Path; T_Polygon; T_Polyline; T_Rect; T_Text; T_Use]',
+    'structural_tags': 'list tag := [T_G; T_Switch; T_Svg]',
+    'elem_dispatch': 'list dispatch_step := [D_TagName; D_GraphicOrStructural; D_Visible; D_Use; D_Switch; D_Group]',
+    'clip_dispatch': 'list dispatch_step := [D_TagName; D_GraphicOrStructural; D_Visible; D_Use; D_Group]',
+    'impl_shape_tags': 'list tag := [T_Rect; T_Circle; T_Ellipse; T_Line; T_Polyline; T_Polygon; T_Path]',
+    'clip_shape_tags': 'list tag := [T_Rect; T_Circle; T_Ellipse; T_Polyline; T_Polygon; T_Path]',
+    'visible_tests': 'list vis_test := [V_DisplayNotNone; V_ValidTransform; V_ConditionPassed]',
+    'condition_fail_tests': 'list cond_test := [CT_NotElement; CT_HasRequiredExtensions; CT_UnknownFeature; CT_SysLangMismatch]',
+    'g_or_use_tags': 'list tag := [T_G; T_Use]',
+    'empty_terms': 'list empty_term := [EM_NoChildren; EM_NotGOrUse; EM_NotForce]',
+    'required_terms': 'list req_term := [RQ_Opacity; RQ_Clip; RQ_Mask; RQ_Filters; RQ_Transform; RQ_Blend; RQ_Isolate; RQ_GOrUse; RQ_Force]',
+    'group_steps': 'list group_step := [GS_EmptyNoFilterAttr; GS_ObjectBBox; GS_Clip; GS_Mask; GS_Filters; GS_NotRequired; GS_EmptyNoFilters; GS_Boxes]',
+    'shape_len_checks': 'list (tag * list geom_attr) := [(T_Rect, [GA_Width; GA_Height]); (T_Circle, [GA_R]); (T_Ellipse, [GA_Rx; GA_Ry])]',
+    'poly_min_points': 'N := 2%N',
+    'gen_prefixes': 'list string := ["linearGradient"; "radialGradient"; "pattern"; "clipPath"; "mask"; "filter"; "image"]',
+    'attr_ns_kept': 'list attr_ns := [ANS_None; ANS_Svg; ANS_Xlink; ANS_Xml]',
+}
+
+
 def generate(api):
+    """Each group of anchors is extracted on its own.  When a group fails, the tables it defines keep the
+    values the model was written against (so that the model still evaluates and the check can search for a
+    failing input) and the tie is reported broken."""
+    defs = {}
+    errors = []
+
+    def put(name, typ, value):
+        defs[name] = "%s := %s" % (typ, value)
+
+    def group(fn):
+        try:
+            fn()
+        except (Miss, OSError) as e:
+            errors.append(str(e))
+
+    src = {}
+    try:
+        for k, rel in (('conv', CONV), ('sw', SWITCH), ('shp', SHAPES), ('stm', STMOD), ('stp', STPARSE)):
+            src[k] = api.rd(rel)
+    except OSError as e:
+        api.broken('table', 'ConvTables', PROPS, e)
+        src = None
+    if src is not None:
+        extract(api, src, put, group)
     out = [api.HEADER, "From Coq Require Import String List.\nFrom RV Require Import Model.Base Model.ConvBase.\n"
            "Import ListNotations.\nLocal Open Scope string_scope.\n"]
-    try:
-        conv = api.rd(CONV)
-        sw = api.rd(SWITCH)
-        shp = api.rd(SHAPES)
-        stm = api.rd(STMOD)
-        stp = api.rd(STPARSE)
+    for name in DEFAULTS:
+        if name in defs:
+            out.append("Definition %s : %s." % (name, defs[name]))
+        else:
+            out.append("(* anchor missing: value the model was written against *)\nDefinition %s : %s." % (name, DEFAULTS[name]))
+    api.write_gen('ConvTables.v', "\n".join(out) + "\n")
+    if errors:
+        for e in errors:
+            api.broken('table', 'ConvTables', PROPS, e)
+    elif src is not None:
+        api.ok('tables', 'ConvTables', props=PROPS)
 
-        # ---- is_graphic
+
+def extract(api, src, put, group):
+    conv, sw, shp, stm, stp = src['conv'], src['sw'], src['shp'], src['stm'], src['stp']
+    def sec_1():  # is_graphic
         b = body_of(api, stm, 'is_graphic')
         m = need(r"^\{ matches!\( self, ([^)]*)\) \}$", b, "is_graphic = matches!(self, ..)")
-        out.append("Definition graphic_tags : list tag := %s." % coq_list(tags_of(m.group(1), 'is_graphic')))
+        put('graphic_tags', 'list tag', "%s" % coq_list(tags_of(m.group(1), 'is_graphic')))
 
-        # ---- convert_element
+    group(sec_1)
+
+    def sec_2():  # convert_element
         b = body_of(api, conv, 'convert_element')
         steps = [
             ('D_TagName', need(r"let tag_name = match node\.tag_name\(\) \{ Some\(v\) => v, None => return, \};", b,
@@ -112,12 +166,14 @@ def generate(api):
                              r"convert_element_impl\(tag_name, node, state, cache, g\); \}\) \{ "
                              r"parent\.children\.push\(Node::Group\(Box::new\(g\)\)\); \}", b, "convert_element: group conversion")),
         ]
-        out.append("Definition structural_tags : list tag := %s." % coq_list(tags_of(steps[1][1].group(1), 'convert_element')))
-        out.append("Definition elem_dispatch : list dispatch_step := %s." % coq_list(ordered(steps, 'convert_element')))
+        put('structural_tags', 'list tag', "%s" % coq_list(tags_of(steps[1][1].group(1), 'convert_element')))
+        put('elem_dispatch', 'list dispatch_step', "%s" % coq_list(ordered(steps, 'convert_element')))
         if len(re.findall(r"\breturn\b", b)) != 5:
             raise Miss("convert_element: expected exactly 5 return statements")
 
-        # ---- convert_clip_path_elements
+    group(sec_2)
+
+    def sec_3():  # convert_clip_path_elements
         b = body_of(api, conv, 'convert_clip_path_elements')
         need(r"^\{ for node in clip_node\.children\(\) \{", b, "convert_clip_path_elements: loop over children")
         steps = [
@@ -131,16 +187,20 @@ def generate(api):
                              r"convert_clip_path_elements_impl\(tag_name, node, state, cache, g\); \}\) \{ "
                              r"parent\.children\.push\(Node::Group\(Box::new\(g\)\)\); \}", b, "clip elements: group conversion")),
         ]
-        out.append("Definition clip_dispatch : list dispatch_step := %s." % coq_list(ordered(steps, 'clip elements')))
+        put('clip_dispatch', 'list dispatch_step', "%s" % coq_list(ordered(steps, 'clip elements')))
         if len(re.findall(r"\bcontinue\b", b)) != 4 or re.search(r"\breturn\b|\bbreak\b", b):
             raise Miss("convert_clip_path_elements: unexpected control flow")
 
-        # ---- convert_children
+    group(sec_3)
+
+    def sec_4():  # convert_children
         b = body_of(api, conv, 'convert_children')
         need(r"^\{ for node in parent_node\.children\(\) \{ convert_element\(node, state, cache, parent\); \} \}$", b,
              "convert_children = for node in children { convert_element }")
 
-        # ---- convert_element_impl / convert_clip_path_elements_impl
+    group(sec_4)
+
+    def sec_5():  # convert_element_impl / convert_clip_path_elements_impl
         b = body_of(api, conv, 'convert_element_impl')
         m = need(r"^\{ match tag_name \{ ((?:EId::\w+ \| )*EId::\w+) => \{ if let Some\(path\) = super::shapes::convert\(node, state\) "
                  r"\{ convert_path\(node, path, state, cache, parent\); \} \} "
@@ -150,15 +210,17 @@ def generate(api):
                  r"else \{ convert_children\(node, state, cache, parent\); \} \} "
                  r"EId::G => \{ convert_children\(node, state, cache, parent\); \} _ => \{\} \} \}$", b,
                  "convert_element_impl arms")
-        out.append("Definition impl_shape_tags : list tag := %s." % coq_list(tags_of(m.group(1), 'convert_element_impl')))
+        put('impl_shape_tags', 'list tag', "%s" % coq_list(tags_of(m.group(1), 'convert_element_impl')))
         b = body_of(api, conv, 'convert_clip_path_elements_impl')
         m = need(r"^\{ match tag_name \{ ((?:EId::\w+ \| )*EId::\w+) => \{ if let Some\(path\) = super::shapes::convert\(node, state\) "
                  r"\{ convert_path\(node, path, state, cache, parent\); \} \} "
                  r"EId::Text => \{ \{ super::text::convert\(node, state, cache, parent\); \} \} _ => \{ log::warn!\([^;]*\); \} \} \}$", b,
                  "convert_clip_path_elements_impl arms")
-        out.append("Definition clip_shape_tags : list tag := %s." % coq_list(tags_of(m.group(1), 'convert_clip_path_elements_impl')))
+        put('clip_shape_tags', 'list tag', "%s" % coq_list(tags_of(m.group(1), 'convert_clip_path_elements_impl')))
 
-        # ---- is_visible_element
+    group(sec_5)
+
+    def sec_6():  # is_visible_element
         b = body_of(api, conv, 'is_visible_element')
         m = need(r"^\{ (.*) \}$", b, "is_visible_element body")
         vis = []
@@ -172,9 +234,11 @@ def generate(api):
                 vis.append('V_ConditionPassed')
             else:
                 raise Miss("is_visible_element: unknown conjunct %r" % c)
-        out.append("Definition visible_tests : list vis_test := %s." % coq_list(vis))
+        put('visible_tests', 'list vis_test', "%s" % coq_list(vis))
 
-        # ---- is_condition_passed
+    group(sec_6)
+
+    def sec_7():  # is_condition_passed
         b = body_of(api, sw, 'is_condition_passed')
         tests = [
             ('CT_NotElement', need(r"if !node\.is_element\(\) \{ return false; \}", b, "is_condition_passed: element test")),
@@ -188,17 +252,19 @@ def generate(api):
         need(r"\} true \}$", b, "is_condition_passed: final true")
         if len(re.findall(r"\breturn\b", b)) != 4:
             raise Miss("is_condition_passed: expected exactly 4 return statements")
-        out.append("Definition condition_fail_tests : list cond_test := %s." % coq_list(ordered(tests, 'cond')))
+        put('condition_fail_tests', 'list cond_test', "%s" % coq_list(ordered(tests, 'cond')))
         # switch::convert picks the first child that passes
         b = body_of(api, sw, 'convert')
         need(r"let child = node \.children\(\) \.find\(\|n\| is_condition_passed\(\*n, state\.opt\)\)\?;", b, "switch::convert: first passing child")
         need(r"converter::convert_group\(node, state, false, cache, parent, &\|cache, g\| \{ converter::convert_element\(child, state, cache, g\); \}\)",
              b, "switch::convert: group around the chosen child")
 
-        # ---- convert_group
+    group(sec_7)
+
+    def sec_8():  # convert_group
         b = body_of(api, conv, 'convert_group')
         m = need(r"let is_g_or_use = matches!\(node\.tag_name\(\), ([^)]*\)(?: \| Some\(EId::\w+\))*)\);", b, "convert_group: is_g_or_use")
-        out.append("Definition g_or_use_tags : list tag := %s." % coq_list(tags_of(m.group(1), 'is_g_or_use')))
+        put('g_or_use_tags', 'list tag', "%s" % coq_list(tags_of(m.group(1), 'is_g_or_use')))
         need(r"let opacity = if state\.parent_clip_path\.is_none\(\) \{ node\.attribute::<Opacity>\(AId::Opacity\) \.unwrap_or\(Opacity::ONE\) \} "
              r"else \{ Opacity::ONE \};", b, "convert_group: opacity (ONE inside clipPath)")
         need(r"let id = if is_g_or_use && state\.parent_markers\.is_empty\(\) \{ node\.element_id\(\)\.to_string\(\) \} else \{ String::new\(\) \};",
@@ -211,7 +277,7 @@ def generate(api):
             if k is None:
                 raise Miss("convert_group: unknown is_empty conjunct %r" % c)
             em.append(k)
-        out.append("Definition empty_terms : list empty_term := %s." % coq_list(em))
+        put('empty_terms', 'list empty_term', "%s" % coq_list(em))
         m = need(r"let required = ([^;]*);", b, "convert_group: required")
         rq = []
         RQ = {'opacity.get().approx_ne_ulps(&1.0, 4)': 'RQ_Opacity', 'clip_path.is_some()': 'RQ_Clip', 'mask.is_some()': 'RQ_Mask',
@@ -222,7 +288,7 @@ def generate(api):
             if c not in RQ:
                 raise Miss("convert_group: unknown `required` disjunct %r" % c)
             rq.append(RQ[c])
-        out.append("Definition required_terms : list req_term := %s." % coq_list(rq))
+        put('required_terms', 'list req_term', "%s" % coq_list(rq))
         gsteps = [
             ('GS_Collect', need(r"collect_children\(cache, &mut g\);", b, "convert_group: collect_children")),
             ('GS_EmptyNoFilterAttr', need(r"if is_empty && !node\.has_attribute\(AId::Filter\) \{ return None; \}", b,
@@ -248,12 +314,14 @@ def generate(api):
         order = ordered(gsteps, 'convert_group')
         if order[0] != 'GS_Collect':
             raise Miss("convert_group: something exits before the children are collected")
-        out.append("Definition group_steps : list group_step := %s." % coq_list(order[1:]))
+        put('group_steps', 'list group_step', "%s" % coq_list(order[1:]))
         if len(re.findall(r"\breturn\b", b)) != 6:
             raise Miss("convert_group: expected exactly 6 return statements, found %d" % len(re.findall(r"\breturn\b", b)))
         need(r"let abs_transform = parent\.abs_transform\.pre_concat\(transform\);", b, "convert_group: abs_transform")
 
-        # ---- shapes.rs
+    group(sec_8)
+
+    def sec_9():  # shapes.rs
         b = body_of(api, shp, 'convert')
         need(r"EId::Rect => convert_rect\(node, state\), EId::Circle => convert_circle\(node, state\), "
              r"EId::Ellipse => convert_ellipse\(node, state\), EId::Line => convert_line\(node, state\), "
@@ -267,21 +335,23 @@ def generate(api):
             if len(vs) != len(re.findall(r"is_valid_length", fb)) or any(v not in GA for v in vs):
                 raise Miss("%s: unexpected is_valid_length use" % fn)
             checks.append("(%s, %s)" % (tagname, coq_list([GA[v] for v in vs])))
-        out.append("Definition shape_len_checks : list (tag * list geom_attr) := %s." % coq_list(checks))
+        put('shape_len_checks', 'list (tag * list geom_attr)', "%s" % coq_list(checks))
         fb = body_of(api, shp, 'points_to_path')
         m = need(r"if builder\.len\(\) < (\d+) \{ log::warn!\([^;]*\); return None; \}", fb, "points_to_path: minimum number of points")
-        out.append("Definition poly_min_points : N := %s%%N." % m.group(1))
+        put('poly_min_points', 'N', "%s%%N" % m.group(1))
         need(r"fn is_valid_length\(&self\) -> bool \{\s*\*self > 0\.0 && self\.is_finite\(\)\s*\}", api.rd('crates/usvg/src/tree/geom.rs'),
              "IsValidLength for f32")
 
-        # ---- Cache::gen_*_id and the id pre-scan
+    group(sec_9)
+
+    def sec_10():  # Cache::gen_*_id and the id pre-scan
         cn = norm(conv)
         gens = re.findall(r"pub\(crate\) fn gen_(\w+)_id\(&mut self\) -> NonEmptyString \{ loop \{ self\.(\w+)_index \+= 1; "
                           r"let new_id = format!\(\"(\w+)\{\}\", self\.(\w+)_index\); let new_hash = string_hash\(&new_id\); "
                           r"if !self\.all_ids\.contains\(&new_hash\) \{ return NonEmptyString::new\(new_id\)\.unwrap\(\); \} \} \}", cn)
         if len(gens) != len(re.findall(r"fn gen_\w+_id", cn)) or len(gens) < 7 or any(g[0] != g[1] or g[1] != g[3] for g in gens):
             raise Miss("Cache::gen_*_id: %d generators match the loop shape out of %d" % (len(gens), len(re.findall(r'fn gen_\w+_id', cn))))
-        out.append("Definition gen_prefixes : list string := %s." % coq_list(['"%s"' % g[2] for g in gens]))
+        put('gen_prefixes', 'list string', "%s" % coq_list(['"%s"' % g[2] for g in gens]))
         m1 = need(r"for node in svg_doc\.descendants\(\) \{ if !node\.element_id\(\)\.is_empty\(\) \{ "
                   r"cache\.all_ids\.insert\(string_hash\(node\.element_id\(\)\)\); \} \}", cn, "convert_doc: id pre-scan")
         m2 = need(r"convert_children\(svg_doc\.root\(\), &state, &mut cache,", cn, "convert_doc: convert_children(root)")
@@ -290,7 +360,9 @@ def generate(api):
         if len(re.findall(r"all_ids\.insert", cn)) != 1:
             raise Miss("all_ids is modified in more than one place")
 
-        # ---- svgtree: what enters the tree
+    group(sec_10)
+
+    def sec_11():  # svgtree: what enters the tree
         b = body_of(api, stp, 'parse_tag_name')
         need(r"^\{ if !node\.is_element\(\) \{ return None; \} if node\.tag_name\(\)\.namespace\(\) != Some\(SVG_NS\) \{ return None; \} "
              r"EId::from_str\(node\.tag_name\(\)\.name\(\)\) \}$", b, "parse_tag_name")
@@ -312,9 +384,6 @@ def generate(api):
             if c not in NSM:
                 raise Miss("parse_svg_element: unknown attribute namespace %r" % c)
             ns.append(NSM[c])
-        out.append("Definition attr_ns_kept : list attr_ns := %s." % coq_list(ns))
-        api.ok('tables', 'ConvTables', props=PROPS)
-    except (Miss, OSError) as e:
-        api.broken('table', 'ConvTables', PROPS, e)
-        return
-    api.write_gen('ConvTables.v', "\n".join(out) + "\n")
+        put('attr_ns_kept', 'list attr_ns', "%s" % coq_list(ns))
+
+    group(sec_11)
